@@ -687,8 +687,6 @@ func fnOrNil(f *types.Func) *types.Func {
 	return f
 }
 
-var paramFreshBusy = map[string]bool{}
-
 // paramFreshAtEveryCall: root is a pointer parameter of the unexported declared function f, and every call of f in its
 // package passes `&x` for it with x a local of the caller whose corresponding path (x.Matches for t.Matches) is fresh
 // at the call — the helper works on its caller's private copy (addStreamsToMarkTag(&newTag, …)).
@@ -708,11 +706,14 @@ func paramFreshAtEveryCall(p *Prog, f *Fn, root types.Object, path string) bool 
 		return false
 	}
 	busyKey := f.Key() + "|" + path
-	if paramFreshBusy[busyKey] {
+	if p.paramFreshBusy == nil {
+		p.paramFreshBusy = map[string]bool{}
+	}
+	if p.paramFreshBusy[busyKey] {
 		return false
 	}
-	paramFreshBusy[busyKey] = true
-	defer delete(paramFreshBusy, busyKey)
+	p.paramFreshBusy[busyKey] = true
+	defer delete(p.paramFreshBusy, busyKey)
 	suffix := strings.TrimPrefix(path, root.Name())
 	sites, good := 0, 0
 	for _, g := range p.FnList {
